@@ -379,6 +379,7 @@ func c19Stress(run *vf.Run) {
 	c19Formats(run, dir)
 	c19FormatStable(run)
 	c19ConcurrentIDs(run)
+	c19ConcurrentIDPairs(run)
 	nasty := []string{"plain", "quo\"te", "new\nline", "--abcdefghij-Z--", "back\\slash", "tab\there", "unié\xff", "{\"json\":1}"}
 	G := vf.Pick(run, 8, 16)
 	N := vf.Pick(run, 150, 1500)
@@ -715,6 +716,64 @@ func cut(s string, n int) string {
 		return s[:n] + "..."
 	}
 	return s
+}
+
+// c19ConcurrentIDPairs: distinct transaction ids finished in the same second on one WAF keep distinct record files
+// (ids that differ only in a character a file name cannot carry must not be mapped onto each other).
+func c19ConcurrentIDPairs(run *vf.Run) {
+	base, err := os.MkdirTemp("", "verif-c19pairs-")
+	if err != nil {
+		return
+	}
+	defer os.RemoveAll(base)
+	store := filepath.Join(base, "store")
+	_ = os.MkdirAll(store, 0o755)
+	text := fmt.Sprintf("SecRuleEngine On\nSecAuditEngine On\nSecAuditLogParts ABHZ\nSecAuditLogType Concurrent\nSecAuditLogFormat json\nSecAuditLog %s\nSecAuditLogStorageDir %s\nSecAction \"id:1,phase:1,pass,log,auditlog,msg:'m'\"\n", filepath.Join(base, "index.log"), store)
+	w, err := coraza.NewWAF(coraza.NewWAFConfig().WithDirectives(text))
+	if err != nil {
+		run.Inconclusive("c19ConcurrentIDPairs: configuration rejected: %v", err)
+		return
+	}
+	defer closeAny(w)
+	ids := []string{"p/q", "p_q", "p\\q", "p%2Fq", "p%2fq", "p%5Cq", "p-q", "p.q", "p%q", "p%25q"}
+	for attempt := 0; attempt < 3; attempt++ {
+		start := time.Now().Unix()
+		for k, id := range ids {
+			tx := w.NewTransactionWithID(id)
+			tx.ProcessURI(fmt.Sprintf("/pair-marker-%d-%d", attempt, k), "GET", "HTTP/1.1")
+			tx.ProcessRequestHeaders()
+			tx.ProcessLogging()
+			_ = tx.Close()
+		}
+		if time.Now().Unix() != start {
+			continue // the second changed in between: the file names differ anyway, try again
+		}
+		found := map[int]bool{}
+		_ = filepath.Walk(store, func(p string, info os.FileInfo, err error) error {
+			if err != nil || info.IsDir() {
+				return nil
+			}
+			b, _ := os.ReadFile(p)
+			for k := range ids {
+				if strings.Contains(string(b), fmt.Sprintf("/pair-marker-%d-%d\"", attempt, k)) || strings.Contains(string(b), fmt.Sprintf("/pair-marker-%d-%d ", attempt, k)) {
+					found[k] = true
+				}
+			}
+			return nil
+		})
+		run.Eval("concid-pairs")
+		var lost []string
+		for k, id := range ids {
+			if !found[k] {
+				lost = append(lost, id)
+			}
+		}
+		if len(lost) > 0 {
+			run.Violate(vf.Violation{Signature: "audit:concurrent-record-lost|id:collision", What: fmt.Sprintf("concurrent audit writer: the transactions %q finished within one second on one WAF; no record file carries the transactions %q (another transaction's record took their file name)", ids, lost),
+				Replay: map[string]any{"family": "audit-concurrent-id-pairs", "ids": ids, "lost": lost}})
+		}
+		return
+	}
 }
 
 // c19ConcurrentIDs: law RecordPerTransaction for the concurrent writer, over transaction ids as a connector may
